@@ -102,6 +102,17 @@ def drain (bombs : List Id) (v : Vec) (start end_ : Nat) (script : List Pull) (f
         | .error e => .error e
         | .ok v => .ok ⟨v, .ret rs, []⟩
 
+/-- `v.drain(start..end)`, pulls, then the `Drain` is LEAKED (`mem::forget`): no `Drop` runs; the vector keeps the
+    length `Drain::new` gave it (`range.start`).  What was yielded belongs to the caller, what is still in the
+    range and the tail are leaked (never dropped — allowed), nothing can be dropped twice. -/
+def drainForget (v : Vec) (start end_ : Nat) (script : List Pull) : M (Out (List (Option Id))) :=
+  if start > end_ ∨ end_ > v.len then .ok ⟨v, .panic false, []⟩
+  else
+    let d : DrainSt := { tailStart := end_, tailLen := v.len - end_, ptr := start, end_ := end_ }
+    match drainPulls (setLen v start) d script [] with
+    | .error e => .error e
+    | .ok (v, _, rs) => .ok ⟨v, .ret rs, []⟩
+
 /-! ## `ExtractIf` -/
 
 /-- `ExtractIf { index, drained_count, original_len }`; the vector's `len` is 0 while it exists -/
